@@ -37,3 +37,19 @@ Theorem C05_remove_canary_service_done : forall c n g, tc_refs c = true -> tc_on
   n_canary_svc (apply_writes n (tr_writes (remove_canary_service c n g))) = None.
 Proof. exact remove_canary_ok_effect. Qed.
 Print Assumptions C05_remove_canary_service_done.
+
+(* ---------- the workload side of every exit: the BatchRelease control plane hands the workload back ---------- *)
+From RV Require Model.CtlPlane Proofs.CtlPlane.
+(* partition-style Deployment: after a successful Finalize (no batchPartition pending) no control marker is left and the
+   Deployment is un-paused with its native strategy: control-info annotation, strategy annotation, control label, Recreate *)
+Theorem C05_partition_deployment_handed_back : forall f d d',
+  CtlPlane.pd_claimed d = true -> CtlPlane.pd_paused d = true ->
+  CtlPlane.pdep_finalize false f d = (CtlPlane.Done, d') -> CtlPlane.pdep_released d' = true.
+Proof. exact Proofs.CtlPlane.pdep_finalize_done_means_released. Qed.
+Print Assumptions C05_partition_deployment_handed_back.
+(* canary-style Deployment: the stable Deployment is un-claimed and no canary Deployment keeps the batch-release finalizer
+   (it is then garbage-collected with the BatchRelease) *)
+Theorem C05_canary_deployment_handed_back : forall p wr f d d',
+  CtlPlane.cdep_finalize p wr f d = (CtlPlane.Done, d') -> CtlPlane.cdep_released d' = true.
+Proof. exact Proofs.CtlPlane.cdep_finalize_done_means_released. Qed.
+Print Assumptions C05_canary_deployment_handed_back.
